@@ -683,3 +683,5 @@ LEVEL_NOTE = ("Binary rounding of the decimal value is trusted strtod (CPython f
               "are proved. Two hypotheses forced by the code are explicit and shown necessary by theorems: at most 4300 digits for the integer "
               "clause (CPython int() digit limit: longer integer literals that fit 64 bits come back as floats of the same value) and no "
               "U+001C..U+001F in the padding. Theorems are about the model; model = code is established on the explored inputs.")
+
+RULE = RULE + ("; ALSO (fifth session): stream (g) `ro.read`: the TYPED object of a whole read (LasioModel/ReadObj.lean) vs lasio.read item by item (mnemonic, unit, type and value, description) on generated documents and the example corpus")
